@@ -434,7 +434,40 @@ Proof.
       apply (all_crash_invisible _ dv2 bsF Q'); [|exact R2|apply in_gc_invisible].
       intros img' R'. apply (Rec_good _ _ _ _ R').
 Qed.
+Lemma install_after_cs : CSE (pd_img d2) (bsF ++ log_batches (dv_logs dv)).
+Proof. exists dv2, bsF, Q'. split; [apply (Inv_CS _ _ _ _ _ _ in_inv2)|reflexivity]. Qed.
+
+Lemma install_crash_cs :
+  all_crash (fun i => CSE i (bsF ++ log_batches (dv_logs dv))) (pd_img d) (ops1 ++ [op] ++ gc_ops d2).
+Proof.
+  pose proof (Inv_CS _ _ _ _ _ _ I) as C0.
+  apply all_crash_app.
+  - apply (all_crash_invisible_cs _ _ _ _ _ C0 in_ops1_invisible).
+  - fold img1. pose proof (CS_invisible_ops _ _ _ _ _ C0 in_ops1_invisible) as C1. fold img1 in C1.
+    apply all_crash_app.
+    + destruct in_manfile1 as (file & Hl & Hlf). pose proof install_after_cs as Ha.
+      cbn [d2 pd_img] in Ha. unfold op in *. rewrite (iv_man _ _ _ _ _ _ I) in *.
+      apply (crash_cs_manifest_append img1 dv bsF Q file (pd_manifest_boff d) _ _ C1 eq_refl Hl Hlf Ha).
+    + cbn [apply_fsops fold_left].
+      apply (all_crash_invisible_cs (pd_img d2) dv2 bsF Q' _ (Inv_CS _ _ _ _ _ _ in_inv2) in_gc_invisible).
+Qed.
 End INSTALL.
+
+Theorem install_step_c : forall d acked deleted added pointers seq d' ops,
+  InvE d acked ->
+  install_okb d deleted added pointers seq = true ->
+  install_preserves d deleted added pointers seq ->
+  p_install d deleted added pointers seq = Some (d', ops) ->
+  all_crash (fun i => CSE i acked) (pd_img d) ops.
+Proof.
+  intros d acked deleted added pointers seq d' ops (dv & bsF & Q & older & bsM & I & ->) Hok HP Hin.
+  destruct (apply_edit (pd_ver d) (edit_of (mkVC None None None None pointers deleted (map fst added))))
+    as [v'|] eqn:Hedit.
+  2:{ unfold p_install, log_and_apply in Hin. cbn [pd_ver vc_deleted vc_new] in Hin. rewrite Hedit in Hin. discriminate. }
+  rewrite (install_eq d dv bsF Q older bsM I deleted added pointers seq Hok HP v' Hedit) in Hin.
+  injection Hin as <- <-.
+  apply (install_crash_cs d dv bsF Q older bsM I deleted added pointers seq Hok HP v' Hedit).
+Qed.
 
 (** the step lemma *)
 Theorem install_step : forall d acked deleted added pointers seq d' ops,
